@@ -27,6 +27,7 @@ type C08Scenario struct {
 	ArchFilter string `json:"arch_filter,omitempty"` // -x for arch
 	BsIgnore   string `json:"bs_ignore,omitempty"`   // -x for bs
 	ApiPrefix  string `json:"api_prefix,omitempty"`  // -a for api
+	Remove     string `json:"remove,omitempty"`      // -r for api / call / rcall: package names to strip, possibly one a prefix of another
 }
 
 type C08 struct{}
@@ -106,6 +107,26 @@ func (C08) Generate(t *tape.Tape, tier string) interface{} {
 	}
 	if t.Bool(1, 2) {
 		sc.ApiPrefix = "/" + strings.ToLower(simpleNames[t.Pick(len(simpleNames))])[:1]
+	}
+	{
+		a := pkgs[t.Pick(len(pkgs))] + "."
+		b := pkgs[t.Pick(len(pkgs))] + "."
+		switch t.Pick(4) {
+		case 0:
+			sc.Remove = a
+		case 1:
+			sc.Remove = a + "," + b
+		case 2:
+			// one name a prefix of the other, in both orders
+			first := strings.SplitN(a, ".", 2)[0] + "."
+			if t.Bool(1, 2) {
+				sc.Remove = first + "," + a
+			} else {
+				sc.Remove = a + "," + first
+			}
+		default:
+			sc.Remove = a + "," + a + ","
+		}
 	}
 	sc.GitLog = gen.GenGitLog(t)
 	sc.Tree = gen.GenClocTree(t)
@@ -537,6 +558,9 @@ func (C08) Run(ctx *sim.RunCtx, data json.RawMessage) (*sim.Outcome, error) {
 		{"api", []string{"api", "-p", "src", "-f"}, []string{"apis.json", "api.dot", "api.csv"}},
 		{"api-sort", []string{"api", "-p", "src", "-f", "-s", "-c"}, []string{"api.csv"}},
 		{"api-aggregate", []string{"api", "-p", "src", "-f", "-a", sc.ApiPrefix}, []string{"api.dot", "api.csv"}},
+		{"api-remove", []string{"api", "-p", "src", "-f", "-c", "-r", sc.Remove}, []string{"api.dot", "api.csv"}},
+		{"call-remove", []string{"call", "-c", sc.Root, "-r", strings.Split(sc.Remove, ",")[0]}, []string{"call.dot"}},
+		{"rcall-remove", []string{"rcall", "-c", sc.Target, "-r", strings.Split(sc.Remove, ",")[0]}, []string{"rcall.dot"}},
 		{"count", []string{"count"}, nil},
 		{"evaluate", []string{"evaluate"}, []string{"evaluate.json"}},
 		{"concept", []string{"concept"}, nil},
@@ -653,6 +677,11 @@ func (C08) Run(ctx *sim.RunCtx, data json.RawMessage) (*sim.Outcome, error) {
 			switch c.name {
 			case "count", "concept", "evaluate":
 				arte[c.name+".table"] = r.Output
+			case "api-remove":
+				// the -c table: rows as a multiset (same rows as api.csv, other layout)
+				ls := strings.Split(r.Output, "\n")
+				sort.Strings(ls)
+				arte[c.name+".table"] = strings.Join(ls, "\n")
 			}
 		}
 		// library-style analysis: identifier pass, then the full pass with the project-wide identifier set
